@@ -744,6 +744,7 @@ func cmdCheck(id, tier string) int {
 	known := loadKnown()
 	exit := 0
 	var knownHit []string
+	var unrepro []map[string]any
 	nviol := 0
 	must(os.MkdirAll(filepath.Join(outDir, "replays"), 0o755))
 	for _, k := range order {
@@ -788,6 +789,16 @@ func cmdCheck(id, tier string) int {
 			}
 			fmt.Printf("  replay_stability=%d/5 (unscheduled tier: the replay reproduces the outcome, not a decision log)\n", hits)
 			stable = hits > 0
+			if hits == 0 && v.Count == 1 {
+				// One run in the whole batch, and five fresh executions of the same case do not
+				// show it again: in a tier whose goroutine order inside the bubble is the Go
+				// runtime's, that is an observation nobody can replay, not a finding. It is
+				// recorded (evidence, replay file kept) and not raised as an alarm.
+				nviol--
+				unrepro = append(unrepro, map[string]any{"part": v.Part, "class": v.Class, "signature": v.Signature, "detail": truncate(v.Detail, 600), "case": path, "fresh_executions_that_showed_it": 0})
+				fmt.Printf("UNREPRODUCED property=%s case=%s\n  class=%s signature=%s seen in 1 run, 0 of 5 fresh executions of the same case\n  %s\n", id, path, v.Class, v.Signature, truncate(v.Detail, 600))
+				continue
+			}
 		}
 		fmt.Printf("VIOLATION property=%s replay=%s\n", id, path)
 		fmt.Printf("  class=%s signature=%s runs=%d steps=%d fresh-process-replay=%v\n  %s\n", v.Class, v.Signature, v.Count, v.Steps, stable, truncate(v.Detail, 600))
@@ -814,6 +825,7 @@ func cmdCheck(id, tier string) int {
 			"distinct_quiescent_states_sum_over_runs": agg.QStates,
 			"counters":            agg.Counters,
 			"known_findings_seen": knownHit,
+			"observations_seen_once_and_not_reproduced_in_5_fresh_executions": unrepro,
 			"components_real":     p.Real,
 			"components_stub":     p.Stub,
 			"parts":               partInfo,
